@@ -98,7 +98,18 @@ func RunCheck(id string, opts *Options) (*Report, int) {
 			rep.Broken = append(rep.Broken, "contracts: "+err.Error())
 			return rep, 2
 		}
-		_ = lemmas
+		for _, lm := range lemmas {
+			if !hasProp(lm.Props, id) || (opts.OnlyFn != "" && !strings.Contains(lm.Name, opts.OnlyFn)) {
+				continue
+			}
+			g, err := e.LemmaGoal(lm)
+			if err != nil {
+				rep.Broken = append(rep.Broken, "lemma "+lm.Name+": "+err.Error())
+				continue
+			}
+			goals = append(goals, g)
+			rep.Funcs = append(rep.Funcs, "lemma "+lm.Name)
+		}
 		for _, t := range targets {
 			if !hasProp(t.C.Props, id) || t.C.Trusted {
 				continue
